@@ -51,7 +51,21 @@
 (* Output IOEnv.OUT: one line per program that is not clean:               *)
 (*   [name, verdict \in {"model", "violation"}, items: <<[kind, key, what]>>] *)
 (* key: the CLASS of the deviation by scoping shape (stable identity for   *)
-(* known findings).                                                        *)
+(* known findings), the first of these that applies:                       *)
+(*   mutable-lambda-with-parameters        any variable deviation in a     *)
+(*       program rendered with `(params) mutable {` lambdas                *)
+(*   declaration-not-distinct:<kind>       a declaration whose own token   *)
+(*       is linked to another variable / shares the varId of another       *)
+(*       declaration, and every token that should be bound to it           *)
+(*   leaked-scope:<kind>                   a token linked to a declaration *)
+(*       whose scope has already ended                                     *)
+(*   variable-of-reopened-namespace:...    a variable of an earlier block  *)
+(*       of the namespace hidden by a later declaration outside            *)
+(*   wrong-variable / wrong-varid / shared-varid:<kinds of the tokens>     *)
+(*   wrong-function:declared-after-the-call | <call, expected, got>        *)
+(* <kind> of a token: global namespace-variable local field smember        *)
+(* for-init param lambda-param initcap (declarations); plain this qual     *)
+(* glob init initsrc capture for-header (uses).                            *)
 (***************************************************************************)
 EXTENDS ScopesText, Json, IOUtils
 
@@ -120,7 +134,14 @@ Judge(p) ==
                   ELSE [i |-> o.i, s |-> o.s, nm |-> pr[o.i].sub[o.s].nm, id |-> pr[o.i].sub[o.s].id, role |-> SubRole(pr[o.i].sub[o.s]), k |-> k]
       T  == {TokOf(k) : k \in DOMAIN p.toks}
       Complete == Cardinality(T) = Cardinality(Toks(pr)) /\ \A t \in T : t.role # ""
-      Kind(t) == IF p.mut /\ TokKind(pr, t) = "lambda-param" THEN "mutable-lambda-param" ELSE TokKind(pr, t)
+      \* the innermost construct open at item i (0: none)
+      Encl(i) == LET st == OpenIdxAt(pr, i) IN IF st = <<>> THEN 0 ELSE st[Len(st)]
+      InNs(t) == t.s = 0 /\ pr[t.i].op = "decl" /\ pr[t.i].form = "global" /\ Encl(t.i) # 0 /\ pr[Encl(t.i)].op = "ns"
+      Kind(t) == IF p.mut /\ TokKind(pr, t) = "lambda-param" THEN "mutable-lambda-param"
+                 ELSE IF InNs(t) THEN "namespace-variable" ELSE TokKind(pr, t)
+      \* d is a variable of a namespace whose block (the one d is written in) has been closed before token t:
+      \* t can only mean d from a later block of the same namespace (or by a qualified name)
+      NsClosed(d, t) == InNs(d) /\ t.i > CloseOf(pr, Encl(d.i))
       \* the declaration d is written in a scope that has ended before token t
       Ended(d, t) == d.role = "decl" /\ ScopeItem(pr, d) # 0 /\ t.i > CloseOf(pr, ScopeItem(pr, d))
       O(t) == p.toks[t.k]
@@ -178,6 +199,8 @@ Judge(p) ==
       VarItem(t) == [kind |-> "wrong-variable",
                      key  |-> IF MutParam THEN MutKey ELSE IF Root(t) # {} THEN RootKey(CHOOSE d \in Root(t) : TRUE)
                               ELSE IF LeakTo(t, GotVar(t)) THEN "leaked-scope:" \o KindAt(GotVar(t))
+                              ELSE IF At(Exp(t)) # {} /\ NsClosed(DeclOf(t), t) /\ pr[t.i].form # "qual"
+                                   THEN "variable-of-reopened-namespace:hidden-by-" \o KindAt(GotVar(t))
                               ELSE "wrong-variable:" \o Kind(t) \o "-in-" \o InnerFn(pr, t.i) \o ":expected=" \o KindAt(Exp(t)) \o ":got=" \o KindAt(GotVar(t)),
                      what |-> "token " \o t.nm \o " at " \o PosStr(Pos(t)) \o " is linked to the variable declared at " \o PosStr(GotVar(t))
                               \o ", the language binds it to the declaration at " \o PosStr(Exp(t))]
